@@ -231,18 +231,42 @@ def judge_mixed(case) -> Verdict:
         raise Invalid()
     # wrap generated slices into explicit blocks
     out, i = [], 0
+    mapping = []  # per top-level object: indices of the generated items it holds
     spans = sorted((lo % len(items), max(1, ln)) for lo, ln in case["spans"])
     for lo, ln in spans:
         if lo < i:
             continue
         out.extend(items[i:lo])
+        mapping.extend([k] for k in range(i, lo))
         out.append(AceGroup(items=items[lo:lo + ln], platform=acl.platform, version=str(acl.version), port_nr=acl.port_nr,
                             protocol_nr=acl.protocol_nr, max_ncwb=acl.max_ncwb))
+        mapping.append(list(range(lo, lo + len(items[lo:lo + ln]))))
         i = lo + len(items[lo:lo + ln])
     out.extend(items[i:])
+    mapping.extend([k] for k in range(i, len(items)))
     acl.items = out
     nblocks = sum(1 for o in acl.items if isinstance(o, AceGroup))
     nplain = len(acl.items) - nblocks
+    if case.get("reuse_block") is not None and nblocks:
+        # ONE block object listed at two positions of the ACL: flattening keeps both occurrences
+        bpos = [k for k, o in enumerate(acl.items) if isinstance(o, AceGroup)]
+        src = bpos[case["reuse_block"][0] % len(bpos)]
+        dst = case["reuse_block"][1] % (len(acl.items) + 1)
+        acl.items.insert(dst, acl.items[src])
+        mapping.insert(dst, mapping[src])
+        model = dict(acl_case, items=[acl_case["items"][k] for grp in mapping for k in grp])
+        t0 = acl.line
+        want = want_tcam(model)
+        if acl.tcam_count() != want:
+            v.fail("mixed:tcam:one-block-listed-twice", {"got": acl.tcam_count(), "want": want, "text": t0})
+        acl.ungroup()
+        if acl.line != t0:
+            v.fail("mixed:ungroup:text-changed:one-block-listed-twice", {"before": t0, "after": acl.line})
+        elif acl.tcam_count() != want:
+            v.fail("mixed:tcam-after-ungroup:one-block-listed-twice", {"got": acl.tcam_count(), "want": want})
+        v.nt()
+        v.label("one-block-listed-twice")
+        return v
     start, step = case.get("start", 10), case.get("step", 10)
     if not (1 <= start <= 1000 and 1 <= step <= 100):
         raise Invalid()
@@ -277,7 +301,8 @@ def mixed_st(draw, tier):
     n = len(acl["items"])
     return {"acl": acl, "spans": [[draw(st.integers(0, n)), draw(st.integers(1, 3))] for _ in range(draw(st.integers(1, 3)))],
             "perm": draw(st.lists(st.integers(0, 50), min_size=1, max_size=8)),
-            "start": draw(st.sampled_from([1, 10, 100])), "step": draw(st.sampled_from([1, 5, 10]))}
+            "start": draw(st.sampled_from([1, 10, 100])), "step": draw(st.sampled_from([1, 5, 10])),
+            "reuse_block": draw(st.sampled_from([None, None, None, [draw(st.integers(0, 3)), draw(st.integers(0, 12))]]))}
 
 
 def judge_inplace(case) -> Verdict:
